@@ -391,7 +391,7 @@ static void case_far(uint64_t idx, vh_rng *r)
     m[0] = far_map(NULL, span);
     if (m[0]) m[1] = far_map(m[0] + mult * 0x100000000LL, span);
     if (m[0] && !m[1]) { mult = -mult; m[1] = far_map(m[0] + mult * 0x100000000LL, span); }
-    if (m[1] && par && c->id == CIPH_MANTIS) m[2] = far_map(m[1] + mult * 0x100000000LL, span);
+    if (m[1] && par && c->id == CIPH_MANTIS) { m[2] = far_map(m[1] + mult * 0x100000000LL, span); if (!m[2]) m[2] = far_map(NULL, span); }     /* the tweak array always gets a mapping of its own */
     if (!m[0] || !m[1]) { VH_COUNT("far_placement_unavailable", 1); if (m[0]) munmap(m[0], span); return; }
     in = m[0] + mis; out = m[1] + mis;            /* out - in == mult * 2^32 exactly ... */
     if (vh_below(r, 2)) {                         /* ... or a little more or less: (out - in) mod 2^32 is then a small number although the buffers are far apart */
@@ -399,7 +399,7 @@ static void case_far(uint64_t idx, vh_rng *r)
         if (vh_below(r, 2)) out += d; else in += d;
     }
     memcpy(in, src[0], len); memcpy(out, stale, len);
-    if (par && c->id == CIPH_MANTIS) { tw = m[2] ? m[2] + mis : m[0] + 8192 + mis; memcpy(tw, src[1], len); }
+    if (par && c->id == CIPH_MANTIS) { if (!m[2]) { VH_COUNT("far_placement_unavailable", 1); munmap(m[0], span); munmap(m[1], span); return; } tw = m[2] + mis; memcpy(tw, src[1], len); }
     memset(&A, 0, sizeof(A)); memset(&Bh, 0, sizeof(Bh));
     vh_set_cap(be);
     snprintf(key_, sizeof(key_), "C09:%s_%s:%s:buffers-4GiB-apart", c->name, par ? "parallel" : "ctr", vh_backend_names[be]); vh_set_crash_key(key_);
@@ -440,7 +440,9 @@ static void one_case(uint64_t idx)
     snprintf(d, sizeof(d), "{\"driver\":\"drv_buf\",\"prop\":\"C09\",\"mode\":\"c09\",\"seed\":%llu,\"case\":%llu,\"variant\":\"%s\"}", (unsigned long long)vh_seed, (unsigned long long)idx, vh_variant);
     vh_case_begin(idx, "C09", d);
     if (idx % 1000 == 999) { case_big(idx / 1000, &r); return; }
+#ifndef VH_VALGRIND      /* placements at chosen addresses are a matter for the native and ASan builds; under memcheck the address space is valgrind's */
     if (idx % 100 == 57) { case_far(idx / 100, &r); return; }
+#endif
     switch (idx & 3) {
     case 0: case_single(idx >> 2, &r); break;
     case 1: case_keys(idx >> 2, &r); break;
